@@ -409,3 +409,24 @@ func (v Value) VerifSliceCap() int {
 	}
 	return -1
 }
+
+// VerifPosWord packs a position whose file name has index fi and whose function name has index gi in
+// the position-name table, and returns the four fields read back from the word.
+func VerifPosWord(fi, gi, line, col int) string {
+	l := newLookup()
+	top := fi
+	if gi > top {
+		top = gi
+	}
+	name := func(i int) string {
+		if i == 0 {
+			return ""
+		}
+		return fmt.Sprint("n", i)
+	}
+	for i := 1; i <= top; i++ {
+		l.names().Index(name(i))
+	}
+	p := newPos(l, name(fi), name(gi), line, col)
+	return fmt.Sprintf("%d %d %d %d", (p>>48)&0xffff, (p>>32)&0xffff, (p>>16)&0xffff, p&0xffff)
+}
